@@ -80,6 +80,40 @@ func NewDDDObject(vals ...any) *DDDObject {
 	return d
 }
 
+// Derived types that are something else as well: an error (and a few other small interfaces a value may satisfy by
+// accident), and types that are used and registered by value instead of through a pointer.
+type ErrList struct {
+	at.List
+	msg string
+}
+
+func (e *ErrList) Error() string    { return e.msg }
+func (e *ErrList) Unwrap() error    { return nil }
+func (e *ErrList) GoString() string { return "ErrList" }
+func (e *ErrList) Len() int         { return e.Count() }
+
+type ErrObject struct {
+	at.Object
+	msg string
+}
+
+func (e *ErrObject) Error() string                { return e.msg }
+func (e *ErrObject) Is(error) bool                { return false }
+func (e *ErrObject) MarshalText() ([]byte, error) { return []byte(e.msg), nil }
+
+type ValList struct {
+	at.List
+	tag string
+}
+
+type ValObject struct {
+	at.Object
+	tag string
+}
+
+// fixtureDepths: 1..3 embedding levels, 4 = a derived type that also is an error, 5 = a derived type registered by value
+const fixtureDepths = 5
+
 // fixture: outer = the registered derived value, inner = the embedded library container, mids = intermediate levels.
 type fixture struct {
 	name  string
@@ -90,6 +124,14 @@ type fixture struct {
 
 func listFixture(depth int, vals ...any) fixture {
 	switch depth {
+	case 4:
+		d := &ErrList{List: at.NewList(vals...), msg: "a list that is an error"}
+		d.Init(d)
+		return fixture{"ErrList", d, d.List, nil}
+	case 5:
+		d := ValList{List: at.NewList(vals...), tag: "by value"}
+		d.Init(d)
+		return fixture{"ValList (registered by value)", d, d.List, nil}
 	case 1:
 		d := NewDList(vals...)
 		return fixture{"DList", d, d.List, nil}
@@ -104,6 +146,14 @@ func listFixture(depth int, vals ...any) fixture {
 
 func objectFixture(depth int, vals ...any) fixture {
 	switch depth {
+	case 4:
+		d := &ErrObject{Object: at.NewObject(vals...), msg: "an object that is an error"}
+		d.Init(d)
+		return fixture{"ErrObject", d, d.Object, nil}
+	case 5:
+		d := ValObject{Object: at.NewObject(vals...), tag: "by value"}
+		d.Init(d)
+		return fixture{"ValObject (registered by value)", d, d.Object, nil}
 	case 1:
 		d := NewDObject(vals...)
 		return fixture{"DObject", d, d.Object, nil}
@@ -302,10 +352,10 @@ func runC19(c *fw.Ctx) {
 			sub = "list-methods"
 		}
 		nm := it.NumMethod()
-		c.Cases(sub, nm*3*states, true, func(i int, r0 *rng.R) {
+		c.Cases(sub, nm*fixtureDepths*states, true, func(i int, r0 *rng.R) {
 			m := it.Method(i % nm)
-			depth := 1 + (i/nm)%3
-			state := i / (nm * 3)
+			depth := 1 + (i/nm)%fixtureDepths
+			state := i / (nm * fixtureDepths)
 			r := rng.New(c.Seed, "C19/"+sub, i)
 			// does the method return the interface itself?
 			if m.Type.NumOut() != 1 || m.Type.Out(0) != it {
@@ -365,8 +415,8 @@ func runC19(c *fw.Ctx) {
 		})
 	}
 	// (2) both branches of methods with internal delegation, chains
-	c.Cases("delegation", 3*states, true, func(i int, r0 *rng.R) {
-		depth := 1 + i%3
+	c.Cases("delegation", fixtureDepths*states, true, func(i int, r0 *rng.R) {
+		depth := 1 + i%fixtureDepths
 		r := rng.New(c.Seed, "C19/delegation", i)
 		size := []int{0, 1, 2, 5}[r.Intn(4)]
 		vals := make([]any, size)
@@ -528,9 +578,9 @@ func runC19(c *fw.Ctx) {
 		ostep("ForEachAsync(empty)", func() at.Object { return o.ForEachAsync(func(string, any) {}) })
 	})
 	// (3) storage: a derived value stored in another container comes back as the identical outer value
-	c.Cases("storage", 3*2*states, true, func(i int, r0 *rng.R) {
-		depth := 1 + i%3
-		storedIsList := (i/3)%2 == 0
+	c.Cases("storage", fixtureDepths*2*states, true, func(i int, r0 *rng.R) {
+		depth := 1 + i%fixtureDepths
+		storedIsList := (i/fixtureDepths)%2 == 0
 		r := rng.New(c.Seed, "C19/storage", i)
 		var fx fixture
 		if storedIsList {
